@@ -1,5 +1,8 @@
 """C08 — JS bindings read and write structs with the wasm32 repr(C) layout (spec/abi/WasmAbi.tla)."""
 import json, os, random, re, struct
+
+# field names by position: not alphabetical (see abisig.FIELD_NAMES), no underscores (JS camel-cases field names)
+FN = ["w", "c", "z", "a", "m", "b", "q", "d"]
 import lib, abisig, callgen
 
 STUB = r'''
@@ -70,7 +73,7 @@ class Val:
             parts, leaves = [], []
             for i, f in enumerate(STRUCTS[t["n"]]):
                 js, lv = self.gen(f)
-                parts.append("f%d: %s" % (i, js))
+                parts.append("%s: %s" % (FN[i], js))
                 leaves += lv
             return "{%s}" % ", ".join(parts), leaves
         if k == "opt":
@@ -152,11 +155,11 @@ def run_abi(rep, tier, cases, abi, wd, rng):
     items = ["    #[diplomat::opaque]\n    pub struct Opq(pub u8);\n    #[diplomat::opaque]\n    pub struct Host(pub u8);\n"
              "    pub enum En { A, B = 5, C }\n"]
     for n, fs in STRUCTS.items():
-        items.append("    pub struct %s {\n%s    }\n" % (n, "".join("        pub f%d: %s,\n" % (i, rust_field(f)) for i, f in enumerate(fs))))
+        items.append("    pub struct %s {\n%s    }\n" % (n, "".join("        pub %s: %s,\n" % (FN[i], rust_field(f)) for i, f in enumerate(fs))))
     methods = []
     for n, c in enumerate(cases):
         lt = "<'a>" if needs_lt(c["fields"]) else ""
-        items.append("    pub struct W%d%s {\n%s    }\n" % (n, lt, "".join("        pub f%d: %s,\n" % (i, rust_field(f)) for i, f in enumerate(c["fields"]))))
+        items.append("    pub struct W%d%s {\n%s    }\n" % (n, lt, "".join("        pub %s: %s,\n" % (FN[i], rust_field(f)) for i, f in enumerate(c["fields"]))))
         methods.append("        pub fn take%d%s(&self, s: W%d%s) {}\n" % (n, lt, n, lt))
         if not lt:
             methods.append("        pub fn give%d(&self) -> W%d { todo!() }\n" % (n, n))
@@ -185,7 +188,7 @@ def run_abi(rep, tier, cases, abi, wd, rng):
         parts, leaves = [], []
         for i, f in enumerate(c["fields"]):
             js, lv = vg.gen(f)
-            parts.append("f%d: %s" % (i, js))
+            parts.append("%s: %s" % (FN[i], js))
             leaves += lv
         img = image(c, leaves)
         expect.append({"img": img, "args": slot_expect(c["legacy"] if abi == "legacy" else c["spec"], img)})
@@ -198,7 +201,7 @@ def run_abi(rep, tier, cases, abi, wd, rng):
         single = len(c["flat"]) == 1
         if not single:
             lines.append("  { new Uint8Array(wasm.memory.buffer, 0x1800, %d).set([%s]); const r = W%d._fromFFI(rt.internalConstructor, 0x1800, [], [], []); out.readback = J(r); out.fields = J(Object.fromEntries(%s.map(k => [k, r[k]]))); }" % (
-            size, imghex, n, json.dumps(["f%d" % i for i in range(len(c["fields"]))])))
+            size, imghex, n, json.dumps([FN[i] for i in range(len(c["fields"]))])))
         lines.append("  { calls.length = 0; host.take%d(new W%d(v)); const cl = calls.find(x => x[0] === 'Host_take%d'); out.take = J(cl ? cl[1] : null); out.take_mem = cl && cl[1].length == 2 && typeof cl[1][1] === 'number' ? (() => { try { return bytes(cl[1][1], %d); } catch (e) { return null; } })() : null; }" % (n, n, n, size))
         if not needs_lt(c["fields"]) and not single:
             lines.append("  { calls.length = 0; try { host.give%d(); } catch (e) {} const al = calls.find(x => x[0] === 'diplomat_alloc'); out.give = al ? al[1] : null; }" % n)
@@ -239,8 +242,8 @@ def run_abi(rep, tier, cases, abi, wd, rng):
             if "fields" not in d:
                 break
             exp = readback_expect(f, vg, img, c, i)
-            if exp is not None and not same_value(fields.get("f%d" % i), exp):
-                rep.violation(dict(key, what="value read back from memory differs", field=i), {"layout": ly, "expected": exp, "read": fields.get("f%d" % i)})
+            if exp is not None and not same_value(fields.get(FN[i]), exp):
+                rep.violation(dict(key, what="value read back from memory differs", field=i), {"layout": ly, "expected": exp, "read": fields.get(FN[i])})
         # 3. receive buffer
         if "give" in d and d["give"] != [ly["size"], ly["align"]]:
             rep.violation(dict(key, what="receive buffer size/alignment differ"), {"expected": [ly["size"], ly["align"]], "observed": d["give"]})
@@ -338,12 +341,12 @@ def host_rustc_leg(rep, cases, wd):
     src = ["#![allow(dead_code)]\n#[repr(C)] struct V { p: u32, l: u32 }\n#[repr(C)] union U<T: Copy> { ok: T, none: () }\n"
            "#[repr(C)] struct O<T: Copy> { v: U<T>, is_ok: bool }\n"]
     for n, fs in STRUCTS.items():
-        src.append("#[repr(C)] #[derive(Clone, Copy)] struct %s { %s }\n" % (n, ", ".join("f%d: %s" % (i, rf(f)) for i, f in enumerate(fs))))
+        src.append("#[repr(C)] #[derive(Clone, Copy)] struct %s { %s }\n" % (n, ", ".join("%s: %s" % (FN[i], rf(f)) for i, f in enumerate(fs))))
     src.append("impl Clone for V { fn clone(&self) -> Self { V { p: self.p, l: self.l } } }\nimpl Copy for V {}\n")
     body = []
     for n, c in enumerate(cases):
-        src.append("#[repr(C)] struct W%d { %s }\n" % (n, ", ".join("f%d: %s" % (i, rf(f)) for i, f in enumerate(c["fields"]))))
-        offs = ", ".join("std::mem::offset_of!(W%d, f%d)" % (n, i) for i in range(len(c["fields"])))
+        src.append("#[repr(C)] struct W%d { %s }\n" % (n, ", ".join("%s: %s" % (FN[i], rf(f)) for i, f in enumerate(c["fields"]))))
+        offs = ", ".join("std::mem::offset_of!(W%d, %s)" % (n, FN[i]) for i in range(len(c["fields"])))
         body.append('    println!("{{\\"n\\":%d,\\"size\\":{},\\"align\\":{},\\"offsets\\":{:?}}}", std::mem::size_of::<W%d>(), std::mem::align_of::<W%d>(), [%s]);'
                     % (n, n, n, offs))
     src.append("fn main() {\n" + "\n".join(body) + "\n}\n")
